@@ -162,6 +162,202 @@ def later_ops_chain(o, l, mpo, mism, skipped):
     both("add", add, o, l, mism, skipped)
 
 
+
+# ---------------------------------------------------------------------------------------------------
+# container kinds of the fields (later behaviour depends on them: a 0-d ndarray prefactor is mutable and
+# shared by copies, an object-ndarray `qn` is sliced as a VIEW) and long operation sequences with
+# "the source object is unchanged" checks after every step
+def kind_of(v):
+    if isinstance(v, np.ndarray):
+        if v.dtype == object:
+            return "objarray"
+        return "ndarray0d" if v.ndim == 0 else "ndarray"
+    if isinstance(v, (bool, np.bool_)):
+        return "pyscalar" if isinstance(v, bool) else "npscalar"
+    if isinstance(v, (int, float, complex)):
+        return "pyscalar"
+    if isinstance(v, np.generic):
+        return "npscalar"
+    return type(v).__name__
+
+
+def chain_types(x, with_coeff=True):
+    t = {"qn": kind_of(x.qn) if not isinstance(x.qn, list) else "list",
+         "qn_entry": kind_of(x.qn[0]) if not isinstance(x.qn[0], list) else "list",
+         "qnidx": kind_of(x.qnidx), "qntot": kind_of(x.qntot) + ":" + str(getattr(x.qntot, "dtype", "")),
+         "to_right": kind_of(x.to_right)}
+    if with_coeff:
+        t["coeff"] = kind_of(x.coeff)
+    return t
+
+
+def chain_snapshot(x):
+    return {"mts": [np.array(arr(t)) for t in x], "qn": [np.array(q) for q in x.qn], "qnidx": int(x.qnidx),
+            "to_right": bool(x.to_right), "qntot": np.array(x.qntot), "coeff": complex(np.asarray(x.coeff).item())}
+
+
+def chain_changed(snap, x):
+    out = []
+    if int(x.qnidx) != snap["qnidx"]:
+        out.append("qnidx %d -> %d" % (snap["qnidx"], x.qnidx))
+    if bool(x.to_right) != snap["to_right"]:
+        out.append("to_right")
+    if not np.array_equal(np.array(x.qntot), snap["qntot"]):
+        out.append("qntot")
+    if complex(np.asarray(x.coeff).item()) != snap["coeff"]:
+        out.append("coeff %r -> %r" % (snap["coeff"], complex(np.asarray(x.coeff).item())))
+    for i, t in enumerate(x):
+        if not np.array_equal(arr(t), snap["mts"][i]):
+            out.append("tensor %d" % i)
+    if len(x.qn) != len(snap["qn"]):
+        out.append("number of label arrays")
+    else:
+        for i, q in enumerate(x.qn):
+            if not np.array_equal(np.array(q), snap["qn"][i]):
+                out.append("qn[%d] %s -> %s" % (i, snap["qn"][i].tolist(), np.array(q).tolist()))
+    return out
+
+
+def tree_snapshot(x):
+    return {"t": [np.array(n.tensor) for n in x.node_list], "qn": [np.array(n.qn) for n in x.node_list],
+            "coeff": complex(np.asarray(x.coeff).item())}
+
+
+def tree_changed(snap, x):
+    out = []
+    if complex(np.asarray(x.coeff).item()) != snap["coeff"]:
+        out.append("coeff %r -> %r" % (snap["coeff"], complex(np.asarray(x.coeff).item())))
+    for i, n in enumerate(x.node_list):
+        if not np.array_equal(n.tensor, snap["t"][i]):
+            out.append("node %d tensor" % i)
+        if not np.array_equal(n.qn, snap["qn"][i]):
+            out.append("node %d qn" % i)
+    return out
+
+
+def run_sequence(steps, x, snapshot, changed):
+    """steps: [(name, f)], f(x) -> list of arrays/scalars, must not modify x.  Returns per step
+    ("ok", result) | ("raised", repr) and, after every step, what changed in x itself."""
+    snap = snapshot(x)
+    out = []
+    for name, f in steps:
+        try:
+            r = f(x)
+            res = ("ok", r if isinstance(r, (list, tuple)) else [r])
+        except Exception as e:
+            res = ("raised", "%s: %s" % (type(e).__name__, str(e)[:150]))
+        try:
+            ch = changed(snap, x)
+        except Exception as e:
+            ch = ["source object unusable after the step: %r" % (e,)]
+        out.append((name, res, ch))
+    return out
+
+
+def compare_sequences(so, sl, mism, skipped):
+    for (name, ro, cho), (_, rl, chl) in zip(so, sl):
+        if cho:
+            skipped.append("%s: changes the ORIGINAL object too (%s) -- not a round-trip matter" % (name, "; ".join(cho[:2])))
+        elif chl:
+            mism.append("step '%s' on an object DERIVED from the reloaded state changed the reloaded state itself: %s" % (name, "; ".join(chl[:3])))
+        if ro[0] == "raised":
+            skipped.append("%s: not applicable to the original (%s)" % (name, ro[1][:60]))
+            continue
+        if rl[0] == "raised":
+            mism.append("step '%s' raised on the reloaded object only: %s" % (name, rl[1]))
+            continue
+        for i, (a, b) in enumerate(zip(ro[1], rl[1])):
+            cmp_arrays("step '%s'[%d]" % (name, i), a, b, mism, exact=False)
+
+
+def dense_c(x):
+    return x.todense() * np.asarray(x.coeff).item()
+
+
+def chain_steps(mpo, kind):
+    from renormalizer.utils import CompressConfig, CompressCriteria
+
+    def regauge(x):
+        c = x.copy()
+        c.move_qnidx(0 if c.to_right else len(c) - 1)
+        c.canonicalise()
+        return [dense_c(c), int(c.qnidx), bool(c.to_right)] + [np.asarray(q) for q in c.qn]
+
+    def right_cano(x):
+        c = x.copy()
+        c.move_qnidx(0 if c.to_right else len(c) - 1)
+        c.ensure_right_canonical()
+        return [dense_c(c)]
+
+    def compress(x):
+        c = x.copy()
+        c.move_qnidx(0 if c.to_right else len(c) - 1)
+        c.compress_config = CompressConfig(CompressCriteria.fixed, max_bonddim=64)
+        c = c.canonicalise().compress()
+        return [dense_c(c)]
+
+    def norm1(x):
+        c = x.copy().normalize("mps_and_coeff")
+        return [dense_c(c), np.asarray(c.coeff).item()]
+
+    def norm2(x):
+        c = x.copy().normalize("mps_norm_to_coeff")
+        return [dense_c(c), np.asarray(c.coeff).item()]
+
+    def evolve(x):
+        c = x.copy()
+        c.move_qnidx(0 if c.to_right else len(c) - 1)
+        c.canonicalise()
+        e = c.evolve(mpo, -0.05j)
+        return [dense_c(e)]
+
+    steps = [("expectation", lambda x: x.expectation(mpo)), ("copy+regauge", regauge), ("copy+ensure_right_canonical", right_cano),
+             ("copy+lossless compress", compress), ("copy+normalize(mps_and_coeff)", norm1), ("copy+normalize(mps_norm_to_coeff)", norm2)]
+    if kind == "mps":
+        steps.append(("copy+imaginary-time evolve", evolve))
+    steps += [("expectation again", lambda x: x.expectation(mpo)), ("copy+regauge again", regauge), ("todense again", dense_c)]
+    return steps
+
+
+def tree_steps(ttno):
+    def tcano(x):
+        c = x.copy()
+        c.canonicalise()
+        return [dense_c(c)] + [n.qn for n in c.node_list]
+
+    def tcompress(x):
+        c = x.copy()
+        c.canonicalise()
+        c.compress()
+        return [dense_c(c)]
+
+    def n1(x):
+        c = x.copy().normalize("ttns_and_coeff")
+        return [dense_c(c), np.asarray(c.coeff).item()]
+
+    def n2(x):
+        c = x.copy().normalize("ttns_norm_to_coeff")
+        return [dense_c(c), np.asarray(c.coeff).item()]
+
+    def cplx(x):
+        c = x.to_complex()
+        c.normalize("ttns_norm_to_coeff")
+        return [dense_c(c)]
+
+    def ev(x):
+        e = x.evolve(ttno, -0.05j)
+        return [dense_c(e)]
+
+    def ev_real(x):
+        e = x.evolve(ttno, 0.05)
+        return [dense_c(e)]
+
+    return [("expectation", lambda x: x.expectation(ttno)), ("copy+canonicalise", tcano), ("copy+compress", tcompress),
+            ("copy+normalize(ttns_and_coeff)", n1), ("copy+normalize(ttns_norm_to_coeff)", n2), ("to_complex+normalize", cplx),
+            ("imaginary-time evolve", ev), ("imaginary-time evolve again", ev), ("real-time evolve", ev_real),
+            ("expectation again", lambda x: x.expectation(ttno)), ("todense again", dense_c)]
+
+
 def legacy_file(src, dst, version):
     """rewrite a 0.4 dump into the key layout the loader expects of an older version (synthesised; the
     current library has no writer for these)"""
@@ -244,6 +440,12 @@ def run_chain(case, tmp):
         info["mpo_missing_attrs"] = sorted(a for a in vars(obj) if a not in vars(l))
     else:
         later_ops_chain(obj, l, mpo, mism, skipped)
+        steps = chain_steps(mpo, kind)
+        compare_sequences(run_sequence(steps, obj, chain_snapshot, chain_changed),
+                          run_sequence(steps, l, chain_snapshot, chain_changed), mism, skipped)
+        info["sequence_steps"] = len(steps)
+    info["types_original"] = chain_types(obj, kind != "mpo")
+    info["types_loaded"] = chain_types(l, kind != "mpo")
     info["skipped_ops"] = skipped
     return mism, info
 
@@ -317,6 +519,12 @@ def run_tree(case, tmp):
         r = x.add(x)
         return r.todense() * r.coeff
     both("add", tadd, t, l, mism, skipped)
+    steps = tree_steps(ttno)
+    compare_sequences(run_sequence(steps, t, tree_snapshot, tree_changed),
+                      run_sequence(steps, l, tree_snapshot, tree_changed), mism, skipped)
+    info["sequence_steps"] = len(steps)
+    info["types_original"] = {"coeff": kind_of(t.coeff), "node_qn": kind_of(t.node_list[0].qn)}
+    info["types_loaded"] = {"coeff": kind_of(l.coeff), "node_qn": kind_of(l.node_list[0].qn)}
     info["skipped_ops"] = skipped
     return mism, info
 
